@@ -8,6 +8,8 @@ discharge exactly those guarantees on the real `Ledger.get_spendable_utxos`, `Tr
     path (`ensures_database_only_touched_under_the_reservation_lock`, `..._lock_released`);
   * the inputs a build adds are exactly the outputs it reserved, all taken from the unreserved set it was offered;
   * after a failure nothing stays reserved; after release everything is free again.
+  * the sqlite chooser (`get_and_reserve_spendable_utxos`, proofs chooser[1], chooser[2] over a table model) flags exactly the
+    outputs it returns, inside the one SQL transaction it is given.
 With mutual exclusion of the lock (asyncio.Lock model) these guarantees imply that the sets selected by concurrent builds are
 disjoint for every interleaving of their database calls.  The whole-system statement is additionally exercised on the real
 Ledger + sqlite Database with 2..8 concurrent builds, every strategy (including the sqlite chooser, whose select+update runs
@@ -17,7 +19,7 @@ from pyvc.api import *
 from contracts import c03 as _c03
 
 for _p in list(PROOFS):
-    if _p.prop == 'C03' and (_p.name.startswith('create[') or _p.name == 'real-ledger.concurrent'):
+    if _p.prop == 'C03' and (_p.name.startswith('create[') or _p.name.startswith('chooser[') or _p.name == 'real-ledger.concurrent'):
         proof("C14", _p.name)(type('C14_' + _p.cls.__name__, (_p.cls,), {}))
 
 TRUSTED = list(_c03.TRUSTED) + [
